@@ -384,3 +384,68 @@ def frozen_same(mi, mo):
                 msg += '; e.g. the cell with first vertex %s reappears with a vertex displaced by %.3e' % (best[1], best[0])
         bad.append(msg)
     return bad
+
+
+# ---------------------------------------------------------------------------- 2-D: triangles + quadrilaterals
+def area2(a, b, c):
+    return 0.5 * ((b[0] - a[0]) * (c[1] - a[1]) - (c[0] - a[0]) * (b[1] - a[1]))
+
+
+def total_area(m):
+    v = m['verts']
+    tot = sum(area2(v[t[0]], v[t[1]], v[t[2]]) for t in m['cells'].get('tri', []))
+    for q in m['cells'].get('qua', []):
+        tot += area2(v[q[0]], v[q[1]], v[q[2]]) + area2(v[q[0]], v[q[2]], v[q[3]])
+    return tot
+
+
+def valid_mixed_2d(m):
+    """C01 for a planar mesh of triangles and quadrilaterals with boundary edges: positive areas, every cell side
+    shared by exactly two cells or by one cell and exactly one boundary edge, every boundary edge on exactly one
+    cell side, boundary closed (each boundary vertex on two boundary edges), every vertex used"""
+    bad = []
+    v = m['verts']
+    nv = len(v)
+    used = [False] * nv
+    sides = {}
+    for kind, np_ in (('tri', 3), ('qua', 4)):
+        for ci, c in enumerate(m['cells'].get(kind, [])):
+            n = c[:np_]
+            if any(x < 0 or x >= nv for x in n) or len(set(n)) != np_:
+                bad.append('%s %d bad nodes %s' % (kind, ci, n))
+                continue
+            for x in n:
+                used[x] = True
+            a = area2(v[n[0]], v[n[1]], v[n[2]]) if np_ == 3 else \
+                area2(v[n[0]], v[n[1]], v[n[2]]) + area2(v[n[0]], v[n[2]], v[n[3]])
+            if not a > 0:
+                bad.append('%s %d %s has non-positive area %.3e' % (kind, ci, n, a))
+            for e in range(np_):
+                a_, b_ = n[e], n[(e + 1) % np_]
+                sides.setdefault((min(a_, b_), max(a_, b_)), []).append((kind, ci))
+    ek = {}
+    for e in m['cells'].get('edg', []):
+        ek.setdefault((min(e[0], e[1]), max(e[0], e[1])), []).append(e)
+    for key, lst in sides.items():
+        nb = len(ek.get(key, []))
+        if len(lst) > 2:
+            bad.append('side %s shared by %d cells' % (key, len(lst)))
+        elif len(lst) == 2 and nb:
+            bad.append('interior side %s also has a boundary edge' % (key,))
+        elif len(lst) == 1 and nb != 1:
+            bad.append('non-conforming: side %s of %s %d has one cell and %d boundary edges (hanging node)' %
+                       (key, lst[0][0], lst[0][1], nb))
+    for key in ek:
+        if key not in sides:
+            bad.append('boundary edge %s is not a side of any cell' % (key,))
+    deg = {}
+    for key in ek:
+        for x in key:
+            deg[x] = deg.get(x, 0) + 1
+    for x, c in deg.items():
+        if c != 2:
+            bad.append('boundary vertex %d on %d boundary edges' % (x, c))
+            break
+    if nv and not all(used):
+        bad.append('%d vertices unused (first %d)' % (used.count(False), used.index(False)))
+    return bad[:12]
